@@ -538,3 +538,6 @@ def run(cx, rep):
                        "%s.%s emits a $ref for `%s` that is not preceded by the ensure-definition sequence (guard -> mark -> schema -> store) for the same name" % (cname, mname, name),
                        mod.loc(call), sample={"site": "%s.%s" % (cname, mname), "name": name})
     rep.floor("C02.4", "$ref emission sites", n_ref, 3)
+    # ---------------------------------------------------------------- C02.11
+    rep.rule("C02.11", "schema() reads every constructor argument it read on the reviewed tree")
+    ts_common.field_matrix_rule(cx, rep, "C02.11", ['schema'])
